@@ -4,6 +4,7 @@ import (
 	"fmt"
 	"go/constant"
 	"go/token"
+	"go/types"
 	"regexp"
 	"sort"
 	"strings"
@@ -12,6 +13,9 @@ import (
 
 	"spgverif/internal/core"
 )
+
+// cli is the role-resolved model of the CLI for the program being checked.
+var cli *cliModel
 
 func init() {
 	register(&Property{
@@ -39,19 +43,139 @@ func init() {
 	})
 }
 
+// cliModel resolves the CLI's unexported names by role.
+type cliModel struct {
+	ccMap, sepMap, capMap, defaults string // global names
+	flagOf                          map[string]string // global var -> "set/flagname"
+	charGen, wlGen, classFlags     *ssa.Function
+	sepFor, capFor                 *ssa.Function
+	builtinList, fileList, usage   *ssa.Function
+}
+
+func resolveCLI(p *core.Program, inits map[string]*core.InitVal) *cliModel {
+	m := &cliModel{flagOf: map[string]string{}}
+	for name, mem := range p.Cmd.Members {
+		g, ok := mem.(*ssa.Global)
+		if !ok {
+			continue
+		}
+		t := g.Type().(*types.Pointer).Elem()
+		switch tt := t.Underlying().(type) {
+		case *types.Map:
+			switch core.NamedOf(tt.Elem()) {
+			case core.ModulePath + ".CTFlag":
+				m.ccMap = name
+			case core.ModulePath + ".SFFunction":
+				m.sepMap = name
+			case core.ModulePath + ".CapScheme":
+				m.capMap = name
+			}
+		case *types.Struct:
+			if n, ok := t.(*types.Named); ok && n.Obj().Pkg() == p.CmdPkg.Types {
+				hasInt, hasSl := false, false
+				for i := 0; i < tt.NumFields(); i++ {
+					switch tt.Field(i).Type().Underlying().(type) {
+					case *types.Basic:
+						hasInt = true
+					case *types.Slice:
+						hasSl = true
+					}
+				}
+				if hasInt && hasSl {
+					m.defaults = name
+				}
+			}
+		}
+		if iv := inits[name]; iv != nil && iv.Call != nil {
+			switch core.CallName(iv.Call) {
+			case "(*flag.FlagSet).Int", "(*flag.FlagSet).String", "(*flag.FlagSet).Bool":
+				n, _ := core.ConstString(iv.Call.Call.Args[1])
+				m.flagOf[name] = n
+			}
+		}
+	}
+	for _, fn := range p.ModuleFuncs() {
+		if fn.Pkg != p.Cmd || fn.Parent() != nil || fn.Synthetic != "" {
+			continue
+		}
+		sig := fn.Signature
+		if sig.Results().Len() == 1 && sig.Params().Len() == 0 {
+			switch core.NamedOf(sig.Results().At(0).Type()) {
+			case core.ModulePath + ".CharRecipe":
+				m.charGen = fn
+			case core.ModulePath + ".WLRecipe":
+				m.wlGen = fn
+			}
+		}
+	}
+	storedCallee := func(fn *ssa.Function, field string) *ssa.Function {
+		var out *ssa.Function
+		if fn == nil {
+			return nil
+		}
+		core.Instrs(fn, func(in ssa.Instruction) {
+			if st, ok := in.(*ssa.Store); ok {
+				if fa, ok := st.Addr.(*ssa.FieldAddr); ok && core.FieldName(fa) == field {
+					if c, ok := st.Val.(*ssa.Call); ok {
+						out = core.StaticCallee(c)
+					}
+				}
+			}
+		})
+		return out
+	}
+	m.classFlags = storedCallee(m.charGen, "Allow")
+	m.sepFor = storedCallee(m.wlGen, "SeparatorFunc")
+	m.capFor = storedCallee(m.wlGen, "Capitalize")
+	// word-list sources: functions returning *spg.WordList
+	for _, fn := range p.ModuleFuncs() {
+		if fn.Pkg != p.Cmd || fn.Parent() != nil || fn.Signature.Results().Len() != 1 || core.NamedOf(fn.Signature.Results().At(0).Type()) != core.ModulePath+".WordList" {
+			continue
+		}
+		readsFile := false
+		for _, c := range core.Calls(fn) {
+			if n := core.CallName(c); n == "io/ioutil.ReadFile" || n == "os.ReadFile" {
+				readsFile = true
+			}
+		}
+		if readsFile {
+			m.fileList = fn
+		} else {
+			m.builtinList = fn
+		}
+	}
+	// usage printer: niladic function called in main in a block that exits
+	if mainFn := p.CmdFunc("main"); mainFn != nil {
+		for _, b := range mainFn.Blocks {
+			if !blockExits(b) {
+				continue
+			}
+			for _, in := range b.Instrs {
+				if c, ok := in.(*ssa.Call); ok {
+					if f := core.StaticCallee(c); f != nil && f.Pkg == p.Cmd && f.Signature.Params().Len() == 0 && f.Signature.Results().Len() == 0 {
+						m.usage = f
+					}
+				}
+			}
+		}
+	}
+	return m
+}
+
 func runC17(p *core.Program, r *core.Report) {
 	if p.Cmd == nil {
 		r.Unrecognised("R17.1", "-", "package cmd/opgen", "", "not loaded")
 		return
 	}
 	inits := core.GlobalInits(p.Cmd)
+	cli = resolveCLI(p, inits)
 	initFn := core.PackageInit(p.Cmd)
 	_ = initFn
 
 	// ---------- R17.1 tables
 	wantCC := map[string]string{"uppercase": "Uppers", "lowercase": "Lowers", "digits": "Digits", "symbols": "Symbols", "ambiguous": "Ambiguous"}
 	mapKeys := map[string][]string{}
-	if iv := inits["ccMap"]; iv == nil || iv.Map == nil {
+	if iv := inits[cli.ccMap]; iv == nil || iv.Map == nil {
 		r.Unrecognised("R17.1", "init", "ccMap", "", "map literal not found")
 	} else {
 		got := map[string]uint64{}
@@ -68,7 +192,7 @@ func runC17(p *core.Program, r *core.Report) {
 		}
 		r.Check(len(got) == len(wantCC), "R17.1", "init", "ccMap has exactly the five documented words", p.Pos(iv.Store.Pos()), fmt.Sprint(len(got)))
 	}
-	if iv := inits["capitalizeMap"]; iv == nil || iv.Map == nil {
+	if iv := inits[cli.capMap]; iv == nil || iv.Map == nil {
 		r.Unrecognised("R17.1", "init", "capitalizeMap", "", "map literal not found")
 	} else {
 		caps := core.ConstsOfType(p.LibPkg.Types, "CapScheme")
@@ -87,7 +211,7 @@ func runC17(p *core.Program, r *core.Report) {
 		r.Check(len(seen) == len(valSet), "R17.1", "init", "capitalizeMap covers all CapScheme constants", p.Pos(iv.Store.Pos()), fmt.Sprintf("%d of %d", len(seen), len(valSet)))
 	}
 	wantSep := map[string]string{"hyphen": "-", "space": " ", "comma": ",", "period": ".", "underscore": "_"}
-	if iv := inits["separatorMap"]; iv == nil || iv.Map == nil {
+	if iv := inits[cli.sepMap]; iv == nil || iv.Map == nil {
 		r.Unrecognised("R17.1", "init", "separatorMap", "", "map literal not found")
 	} else {
 		n := 0
@@ -123,11 +247,11 @@ func runC17(p *core.Program, r *core.Report) {
 	}
 	checkUsageText(p, r, mapKeys)
 
+	// ---------- R17.3 wiring (first: it also tells which defaults field plays which role)
+	checkWiring(p, r)
+
 	// ---------- R17.2 defaults
 	checkFlagDefaults(p, r, inits)
-
-	// ---------- R17.3 wiring
-	checkWiring(p, r)
 
 	// ---------- R17.4 / R17.5
 	checkMainCFG(p, r)
@@ -194,7 +318,7 @@ func constSeparatorFactory(f *ssa.Function) (bool, string) {
 }
 
 func checkUsageText(p *core.Program, r *core.Report, mapKeys map[string][]string) {
-	pu := p.CmdFunc("printUsage")
+	pu := cli.usage
 	if pu == nil {
 		r.Unrecognised("R17.1", "printUsage", "usage text", "", "function not found")
 		return
@@ -268,17 +392,28 @@ func checkFlagDefaults(p *core.Program, r *core.Report, inits map[string]*core.I
 		}
 	})
 	// defaultCharRecipe
-	dcr := inits["defaultCharRecipe"]
+	dcr := inits[cli.defaults]
 	var dLen int64 = -1
 	if dcr == nil || dcr.Struct == nil {
 		r.Unrecognised("R17.2", "init", "defaultCharRecipe", "", "struct literal not found")
 	} else {
 		pos := p.Pos(dcr.Store.Pos())
-		if v := dcr.Struct["length"]; v != nil {
-			dLen, _ = core.ConstInt(v)
+		lenField := ""
+		for f, v := range dcr.Struct {
+			if v == nil {
+				continue
+			}
+			if k, isC := core.ConstInt(v); isC {
+				dLen, lenField = k, f
+			}
 		}
+		_ = lenField
 		r.Trivial(dLen == 20, "R17.2", "init", "defaultCharRecipe.length == 20", pos, fmt.Sprint(dLen))
-		chk := func(field string, want []string) {
+		chk := func(role string, want []string) {
+			field := strings.TrimPrefix(defaultRole[role], ".")
+			if field == "" {
+				field = role
+			}
 			var got []string
 			if v := dcr.Struct[field]; v != nil {
 				if sl, ok := v.(*ssa.Slice); ok {
@@ -290,7 +425,7 @@ func checkFlagDefaults(p *core.Program, r *core.Report, inits map[string]*core.I
 			sort.Strings(got)
 			w := append([]string{}, want...)
 			sort.Strings(w)
-			r.Check(strings.Join(got, ",") == strings.Join(w, ","), "R17.2", "init", "defaultCharRecipe."+field+" == "+fmt.Sprint(want), pos, fmt.Sprint(got))
+			r.Check(strings.Join(got, ",") == strings.Join(w, ","), "R17.2", "init", "default "+role+" classes == "+fmt.Sprint(want), pos, fmt.Sprintf("field %s = %v", field, got))
 		}
 		chk("allow", []string{"uppercase", "lowercase", "digits", "symbols"})
 		chk("exclude", []string{"ambiguous"})
@@ -329,12 +464,16 @@ func checkFlagDefaults(p *core.Program, r *core.Report, inits map[string]*core.I
 			okv = true
 		}
 		if ld, ok := d.def.(*ssa.UnOp); ok && ld.Op == token.MUL {
-			if fa, ok := ld.X.(*ssa.FieldAddr); ok && core.FieldName(fa) == "length" {
-				if g, ok := fa.X.(*ssa.Global); ok && g.Name() == "defaultCharRecipe" && dcr != nil && dLen == 20 {
+			if fa, ok := ld.X.(*ssa.FieldAddr); ok {
+				lf := core.FieldName(fa)
+				if g, ok := fa.X.(*ssa.Global); ok && g.Name() == cli.defaults && dcr != nil && dLen == 20 && dcr.Struct[lf] != nil {
+					if k, isC := core.ConstInt(dcr.Struct[lf]); !isC || k != 20 {
+						lf = ""
+					}
 					// the store of the length must precede the read
 					okv = true
 					for _, ref := range core.Referrers(g) {
-						if fa2, isFA := ref.(*ssa.FieldAddr); isFA && core.FieldName(fa2) == "length" {
+						if fa2, isFA := ref.(*ssa.FieldAddr); isFA && core.FieldName(fa2) == lf {
 							for _, rr := range core.Referrers(fa2) {
 								if st, isSt := rr.(*ssa.Store); isSt && !core.InstrDominates(st, ld) {
 									okv = false
@@ -351,7 +490,7 @@ func checkFlagDefaults(p *core.Program, r *core.Report, inits map[string]*core.I
 		r.Check(okv, "R17.2", "init", "default of --length is defaultCharRecipe.length (20), read after it is initialised", d.pos, core.Describe(d.def))
 	}
 	// parseWordList
-	pw := p.CmdFunc("parseWordList")
+	pw := cli.builtinList
 	if pw == nil {
 		r.Unrecognised("R17.2", "parseWordList", "function", "", "not found")
 		return
@@ -398,8 +537,12 @@ func checkFlagDefaults(p *core.Program, r *core.Report, inits map[string]*core.I
 	r.Check(okExit, "R17.4", "parseWordList", "unknown list word exits with the usage status (2)", p.Pos(pw.Pos()), "")
 }
 
+// defaultRole: which field of the defaults struct serves as default for allow/require/exclude.
+var defaultRole = map[string]string{}
+
 func checkWiring(p *core.Program, r *core.Report) {
-	cgF, wlF, pcc := p.CmdFunc("charGenerator"), p.CmdFunc("wlGenerator"), p.CmdFunc("parseCharacterClasses")
+	defaultRole = map[string]string{}
+	cgF, wlF, pcc := cli.charGen, cli.wlGen, cli.classFlags
 	if cgF == nil || wlF == nil || pcc == nil {
 		r.Unrecognised("R17.3", "-", "charGenerator/wlGenerator/parseCharacterClasses", "", "not all found")
 		return
@@ -415,7 +558,7 @@ func checkWiring(p *core.Program, r *core.Report) {
 			return false
 		}
 		g, ok := ld2.X.(*ssa.Global)
-		return ok && g.Name() == flagVar
+		return ok && cli.flagOf[g.Name()] == flagVar
 	}
 	defaultField := func(v ssa.Value, field string) bool {
 		ref, ok := core.LoadPath(v)
@@ -423,7 +566,14 @@ func checkWiring(p *core.Program, r *core.Report) {
 			return false
 		}
 		g, ok := ref.Root.(*ssa.Global)
-		return ok && g.Name() == "defaultCharRecipe" && ref.Path == "."+field
+		if !ok || g.Name() != cli.defaults {
+			return false
+		}
+		if cur, seen := defaultRole[field]; seen {
+			return cur == ref.Path
+		}
+		defaultRole[field] = ref.Path // the field passed as the default for this role
+		return true
 	}
 	// charGenerator
 	{
@@ -438,7 +588,7 @@ func checkWiring(p *core.Program, r *core.Report) {
 		if recipe == nil {
 			r.Unrecognised("R17.3", name, "returns spg.NewCharRecipe(...)", p.Pos(cgF.Pos()), "")
 		} else {
-			r.Check(flagLoad(recipe.Call.Args[0], "flagLength"), "R17.3", name, "recipe length is *flagLength", p.InstrPos(recipe), core.Describe(recipe.Call.Args[0]))
+			r.Check(flagLoad(recipe.Call.Args[0], "length"), "R17.3", name, "recipe length is *flagLength", p.InstrPos(recipe), core.Describe(recipe.Call.Args[0]))
 			stores := map[string]ssa.Value{}
 			for _, ref := range core.Referrers(recipe) {
 				if fa, ok := ref.(*ssa.FieldAddr); ok {
@@ -449,11 +599,11 @@ func checkWiring(p *core.Program, r *core.Report) {
 					}
 				}
 			}
-			for field, fl := range map[string][2]string{"Allow": {"flagAllow", "allow"}, "Require": {"flagRequire", "require"}, "Exclude": {"flagExclude", "exclude"}} {
+			for field, fl := range map[string][2]string{"Allow": {"allow", "allow"}, "Require": {"require", "require"}, "Exclude": {"exclude", "exclude"}} {
 				v := stores[field]
 				c, ok := v.(*ssa.Call)
 				okv := ok && core.StaticCallee(c) == pcc && len(c.Call.Args) == 2 && flagLoad(c.Call.Args[0], fl[0]) && defaultField(c.Call.Args[1], fl[1])
-				r.Check(okv, "R17.3", name, "recipe."+field+" = parseCharacterClasses(*"+fl[0]+", defaultCharRecipe."+fl[1]+")", p.Pos(cgF.Pos()), core.Describe(v))
+				r.Check(okv, "R17.3", name, "recipe."+field+" = classFlags(*--"+fl[0]+", default "+fl[1]+")", p.Pos(cgF.Pos()), core.Describe(v))
 			}
 			for f := range stores {
 				if f != "Allow" && f != "Require" && f != "Exclude" {
@@ -475,7 +625,7 @@ func checkWiring(p *core.Program, r *core.Report) {
 		if recipe == nil {
 			r.Unrecognised("R17.3", name, "returns spg.NewWLRecipe(...)", p.Pos(wlF.Pos()), "")
 		} else {
-			r.Check(flagLoad(recipe.Call.Args[0], "flagSize"), "R17.3", name, "recipe length is *flagSize", p.InstrPos(recipe), core.Describe(recipe.Call.Args[0]))
+			r.Check(flagLoad(recipe.Call.Args[0], "size"), "R17.3", name, "recipe length is *flagSize", p.InstrPos(recipe), core.Describe(recipe.Call.Args[0]))
 			// list: phi(loadWordListFile(*flagWordListFile), parseWordList(*flagWordList))
 			okList := false
 			if phi, ok := recipe.Call.Args[1].(*ssa.Phi); ok && len(phi.Edges) == 2 {
@@ -483,10 +633,10 @@ func checkWiring(p *core.Program, r *core.Report) {
 				for _, e := range phi.Edges {
 					if c, ok := e.(*ssa.Call); ok && len(c.Call.Args) == 1 {
 						switch core.StaticCallee(c) {
-						case p.CmdFunc("loadWordListFile"):
-							seen["file"] = flagLoad(c.Call.Args[0], "flagWordListFile")
-						case p.CmdFunc("parseWordList"):
-							seen["list"] = flagLoad(c.Call.Args[0], "flagWordList")
+						case cli.fileList:
+							seen["file"] = flagLoad(c.Call.Args[0], "file")
+						case cli.builtinList:
+							seen["list"] = flagLoad(c.Call.Args[0], "list")
 						}
 					}
 				}
@@ -503,14 +653,14 @@ func checkWiring(p *core.Program, r *core.Report) {
 					}
 				}
 			}
-			for field, fl := range map[string][2]string{"SeparatorFunc": {"parseSeparator", "flagSeparator"}, "Capitalize": {"parseCapitalize", "flagCapitalize"}} {
+			for field, fl := range map[string][2]string{"SeparatorFunc": {"separator", cli.sepMap}, "Capitalize": {"capitalize", cli.capMap}} {
 				v := stores[field]
 				c, ok := v.(*ssa.Call)
-				okv := ok && core.StaticCallee(c) == p.CmdFunc(fl[0]) && len(c.Call.Args) == 1 && flagLoad(c.Call.Args[0], fl[1])
+				okv := ok && core.StaticCallee(c) != nil && len(c.Call.Args) == 1 && flagLoad(c.Call.Args[0], fl[0])
 				if okv {
-					okv = isMapLookupOf(p.CmdFunc(fl[0]), map[string]string{"parseSeparator": "separatorMap", "parseCapitalize": "capitalizeMap"}[fl[0]])
+					okv = isMapLookupOf(core.StaticCallee(c), fl[1])
 				}
-				r.Check(okv, "R17.3", name, "recipe."+field+" = "+fl[0]+"(*"+fl[1]+") = table lookup", p.Pos(wlF.Pos()), core.Describe(v))
+				r.Check(okv, "R17.3", name, "recipe."+field+" = table lookup of *--"+fl[0], p.Pos(wlF.Pos()), core.Describe(v))
 			}
 			for f := range stores {
 				if f != "SeparatorFunc" && f != "Capitalize" {
@@ -554,7 +704,7 @@ func checkWiring(p *core.Program, r *core.Report) {
 					}
 					if ld, isLd := lk.X.(*ssa.UnOp); !isLd || ld.Op != token.MUL {
 						okAcc = false
-					} else if g, isG := ld.X.(*ssa.Global); !isG || g.Name() != "ccMap" {
+					} else if g, isG := ld.X.(*ssa.Global); !isG || g.Name() != cli.ccMap {
 						okAcc = false
 						why = "lookup is not in ccMap"
 					}
@@ -682,7 +832,7 @@ func checkMainCFG(p *core.Program, r *core.Report) {
 			if !ok {
 				continue
 			}
-			if f := core.StaticCallee(c); f != nil && (f == p.CmdFunc("charGenerator") || f == p.CmdFunc("wlGenerator")) {
+			if f := core.StaticCallee(c); f != nil && (f == cli.charGen || f == cli.wlGen) {
 				genCtor[b] = true
 			}
 			if c.Common().IsInvoke() && (c.Common().Method.Name() == "Generate" || c.Common().Method.Name() == "Entropy") {
@@ -701,7 +851,7 @@ func checkMainCFG(p *core.Program, r *core.Report) {
 							continue
 						}
 						cc, ok := mi.X.(*ssa.Call)
-						if !ok || !(core.StaticCallee(cc) == p.CmdFunc("charGenerator") || core.StaticCallee(cc) == p.CmdFunc("wlGenerator")) {
+						if !ok || !(core.StaticCallee(cc) == cli.charGen || core.StaticCallee(cc) == cli.wlGen) {
 							okRecv = false
 						}
 					}
@@ -903,7 +1053,7 @@ func checkMainCFG(p *core.Program, r *core.Report) {
 	nOther := 0
 	var fns []*ssa.Function
 	for fn := range reach {
-		if p.InModule(fn) && fn.Blocks != nil && fn != mainFn && fn != p.CmdFunc("printUsage") {
+		if p.InModule(fn) && fn.Blocks != nil && fn != mainFn && fn != cli.usage {
 			fns = append(fns, fn)
 		}
 	}
@@ -924,7 +1074,7 @@ func checkMainCFG(p *core.Program, r *core.Report) {
 	}
 	r.Count("functions reachable from main inspected for stdout writes", len(fns))
 	// printUsage is always followed by exit
-	if pu := p.CmdFunc("printUsage"); pu != nil {
+	if pu := cli.usage; pu != nil {
 		for _, site := range p.Callers(pu) {
 			b := site.Block()
 			r.Check(dead[b] || site.Parent() != mainFn && blockExits(b), "R17.5", core.FuncName(site.Parent()), "printUsage is followed by os.Exit(2)", p.InstrPos(site), "")
